@@ -349,3 +349,46 @@ Definition fnodup (a : fresources) : Prop :=
   NoDup (map (fun x => bg_name (bfc x)) (f_bgp a)) /\ NoDup (map nd_name (f_nodes a)) /\
   NoDup (map ns_name (f_nss a)) /\ NoDup (map pr_name (f_peers a)) /\ NoDup (map bf_name (f_bfds a)) /\
   NoDup (map cm_name (f_comms a)).
+
+(* sort.Slice runs insertion sort only on slices of at most 12 elements *)
+Definition fsmall (a : fresources) : Prop :=
+  (length (f_pools a) <= 12 /\ length (f_l2 a) <= 12 /\ length (f_bgp a) <= 12 /\ length (f_nodes a) <= 12 /\
+   length (f_nss a) <= 12 /\ length (f_peers a) <= 12 /\ length (f_bfds a) <= 12 /\ length (f_comms a) <= 12)%nat.
+Definition rsmall (r : resources) : Prop :=
+  (length (r_pools r) <= 12 /\ length (r_l2 r) <= 12 /\ length (r_bgp r) <= 12 /\ length (r_nodes r) <= 12 /\
+   length (r_nss r) <= 12 /\ length (r_peers r) <= 12 /\ length (r_bfds r) <= 12 /\ length (r_comms r) <= 12)%nat.
+
+(* ------------------------------------------------------------------ observable equality *)
+(* the comparison used by the correspondence and, in the reconciler theorems, the stand-in for
+   reflect.DeepEqual.  It is COARSER than DeepEqual: a *net.IPNet is (family, base, length) (not
+   its 4-byte / 16-byte representation), nil and empty slices coincide, pointer aliasing and
+   the unexported Pool.cidrsPerAddresses ([p_per_addr]) are not compared. *)
+Definition lN_eqb := list_eqb N.eqb.
+Definition opt_eqb {A} (e : A -> A -> bool) (a b : option A) : bool :=
+  match a, b with Some x, Some y => e x y | None, None => true | _, _ => false end.
+Definition bgpadv_eqb (a b : bgpadv) : bool :=
+  (ba_name a =? ba_name b) && (ba_agg4 a =? ba_agg4 b) && (ba_agg6 a =? ba_agg6 b) &&
+  (ba_lp a =? ba_lp b) && lN_eqb (ba_comms a) (ba_comms b) && lN_eqb (ba_nodes a) (ba_nodes b) &&
+  lN_eqb (ba_peers a) (ba_peers b).
+Definition l2adv_same (a b : l2adv) : bool :=
+  Bool.eqb (la_all a) (la_all b) && lN_eqb (la_nodes a) (la_nodes b) && lN_eqb (la_ifaces a) (la_ifaces b).
+Definition salloc_eqb (a b : salloc) : bool :=
+  (sa_prio a =? sa_prio b) && lN_eqb (sa_nss a) (sa_nss b) && list_eqb sel_eqb (sa_sels a) (sa_sels b).
+Definition pool_eqb (a b : pool) : bool :=
+  (p_name a =? p_name b) && list_eqb prefix_eqb (p_cidrs a) (p_cidrs b) &&
+  Bool.eqb (p_avoid a) (p_avoid b) && Bool.eqb (p_auto a) (p_auto b) &&
+  list_eqb bgpadv_eqb (p_bgp a) (p_bgp b) && list_eqb l2adv_same (p_l2 a) (p_l2 b) &&
+  opt_eqb salloc_eqb (p_alloc a) (p_alloc b).
+Definition out_eqb (a b : pools_out) : bool :=
+  list_eqb pool_eqb (po_pools a) (po_pools b) &&
+  list_eqb (fun x y => (fst x =? fst y) && lN_eqb (snd x) (snd y)) (po_byns a) (po_byns b) &&
+  lN_eqb (po_bysel a) (po_bysel b).
+
+Definition bfd_eqb (a b : bfd) : bool :=
+  (b_name a =? b_name b) && oN_eqb (b_rx a) (b_rx b) && oN_eqb (b_tx a) (b_tx b) && oN_eqb (b_detect a) (b_detect b) &&
+  oN_eqb (b_echoint a) (b_echoint b) && oN_eqb (b_minttl a) (b_minttl b) && Bool.eqb (b_echo a) (b_echo b) &&
+  Bool.eqb (b_passive a) (b_passive b).
+Definition fconfig_eqb (a b : fconfig) : bool :=
+  out_eqb (fc_pools a) (fc_pools b) && list_eqb peer_eqb (fc_peers a) (fc_peers b) &&
+  list_eqb bfd_eqb (fc_bfds a) (fc_bfds b) && (fc_extras a =? fc_extras b).
+
